@@ -339,7 +339,8 @@ theorem detachClock_spec {s s' : State} {h p : Nat} (hC : C s) (hr : detachClock
 
 theorem attachClock_spec {s s' : State} {h p : Nat} {c : Option Nat} (hC : C s) (hr : attachClock s h p c = .ok s') :
     ∃ cd ck, s' = { s with clocked := cd, clk := ck } ∧
-      ClockInv s.size s.alive s.numClk ck s.nclocks cd := by
+      ClockInv s.size s.alive s.numClk ck s.nclocks cd ∧
+      (∀ x y v, ck x y = some v → s.clk x y = some v ∨ s.calive v = true) := by
   unfold attachClock at hr
   split at hr
   · cases hr
@@ -348,26 +349,36 @@ theorem attachClock_spec {s s' : State} {h p : Nat} {c : Option Nat} (hC : C s) 
   split at hr
   · cases hr
   rename_i hv
-  have hv : ∀ x ∈ c, x < s.nclocks := Classical.not_not.mp hv
+  have hv : ∀ x ∈ c, x < s.nclocks ∧ s.calive x = true := Classical.not_not.mp hv
   split at hr
   · have e : s = s' := by injection hr
     subst e
-    exact ⟨s.clocked, s.clk, rfl, hC⟩
+    exact ⟨s.clocked, s.clk, rfl, hC, fun _ _ _ e => Or.inl e⟩
   obtain ⟨s1, h1, h2⟩ := bind_ok.mp hr
-  obtain ⟨cd, ck, rfl, hC1, _, _, hnone, _⟩ := detachClock_spec hC h1
+  obtain ⟨cd, ck, rfl, hC1, _, _, hnone, hmon⟩ := detachClock_spec hC h1
+  have hprov : ∀ x y v, ck x y = some v → s.clk x y = some v := by
+    intro x y v e
+    rcases hmon x y with e1 | e1
+    · rw [e1] at e; cases e
+    · rw [← e1]; exact e
   cases c with
   | none =>
     simp only at h2
     have e := Except.ok.inj h2
     subst e
-    refine ⟨cd, ck, ?_, hC1⟩
+    refine ⟨cd, ck, ?_, hC1, fun x y v e => Or.inl (hprov x y v e)⟩
     show ({ s with clocked := cd, clk := upd2 ck h p none } : State) = _
     rw [upd2_self' ck h p none hnone]
   | some c =>
     simp only at h2
     have e := Except.ok.inj h2
     subst e
-    exact ⟨_, _, rfl, clock_add hC1 h p c hl.1 hl.2 hp hnone (hv c rfl)⟩
+    refine ⟨_, _, rfl, clock_add hC1 h p c hl.1 hl.2 hp hnone (hv c rfl).1, ?_⟩
+    intro x y v e
+    rw [upd2_apply] at e
+    split at e
+    · injection e with e; subst e; exact Or.inr (hv c rfl).2
+    · exact Or.inl (hprov x y v e)
 
 theorem clock_grow {size : Nat} {alive : Nat → Bool} {numClk : Nat → Nat} {clk : Nat → Nat → Option Nat}
     {nc : Nat} {clocked : Nat → List NodePort}
@@ -400,15 +411,32 @@ theorem clock_grow {size : Nat} {alive : Nat → Bool} {numClk : Nat → Nat} {c
 
 theorem addClock_spec {s s' : State} {h : Nat} {c : Option Nat} (hC : C s) (hr : addClock s h c = .ok s') :
     ∃ cd ck nk, s' = { s with clocked := cd, clk := ck, numClk := nk } ∧
-      ClockInv s.size s.alive nk ck s.nclocks cd := by
+      ClockInv s.size s.alive nk ck s.nclocks cd ∧
+      (∀ x y v, ck x y = some v → (s.clk x y = some v ∧ ¬ (x = h ∧ y = s.numClk h)) ∨ s.calive v = true) ∧
+      (∀ x, nk x = s.numClk x ∨ (x = h ∧ nk x = s.numClk x + 1 )) ∧ s.live h := by
   unfold addClock at hr
   split at hr
   · cases hr
+  rename_i hl
+  have hl : s.live h := Classical.not_not.mp hl
   simp only at hr
   have hC1 := clock_grow hC h
-  obtain ⟨cd, ck, e, hC2⟩ := attachClock_spec
+  obtain ⟨cd, ck, e, hC2, hprov⟩ := attachClock_spec
     (s := { s with numClk := upd s.numClk h (s.numClk h + 1), clk := upd2 s.clk h (s.numClk h) none }) hC1 hr
-  exact ⟨cd, ck, _, e, hC2⟩
+  refine ⟨cd, ck, _, e, hC2, ?_, ?_, hl⟩
+  · intro x y v e1
+    rcases hprov x y v e1 with e2 | e2
+    · left
+      simp only [upd2_apply] at e2
+      split at e2
+      · cases e2
+      · rename_i hne; exact ⟨e2, hne⟩
+    · exact Or.inr e2
+  · intro x
+    simp only [upd_apply]
+    by_cases e : x = h
+    · right; simp [e]
+    · left; simp [e]
 
 theorem detachRange_spec {h : Nat} (ps : List Nat) {s s' : State} (hC : C s) (hr : detachRange s h ps = .ok s') :
     ∃ cd ck, s' = { s with clocked := cd, clk := ck } ∧
@@ -568,5 +596,98 @@ theorem erase_order {size : Nat} {alive : Nat → Bool} {order : List Nat}
     · cases ha
     · rename_i hne
       exact (hmem x).mpr ⟨h3 x hs ha, by rw [hget]; exact hne⟩
+
+
+/-! ### no clock port refers to a destroyed clock -/
+
+abbrev CA (s : State) : Prop := CAInv s.size s.alive s.numClk s.clk s.calive
+
+theorem ca_mono {size : Nat} {alive : Nat → Bool} {numClk : Nat → Nat} {clk ck : Nat → Nat → Option Nat} {calive : Nat → Bool}
+    (hA : CAInv size alive numClk clk calive)
+    (hp : ∀ x y v, ck x y = some v → clk x y = some v ∨ calive v = true) : CAInv size alive numClk ck calive := by
+  intro h hs ha p hpp c hc
+  rcases hp h p c hc with e | e
+  · exact hA h hs ha p hpp c e
+  · exact e
+
+theorem free_ca {size : Nat} {alive : Nat → Bool} {numClk : Nat → Nat} {clk : Nat → Nat → Option Nat} {calive : Nat → Bool}
+    (hA : CAInv size alive numClk clk calive) (h : Nat) : CAInv size (upd alive h false) numClk clk calive := by
+  intro x hs ha p hp c hc
+  rw [upd_apply] at ha
+  split at ha
+  · cases ha
+  · exact hA x hs ha p hp c hc
+
+theorem create_ca {size : Nat} {alive : Nat → Bool} {numClk : Nat → Nat} {clk : Nat → Nat → Option Nat} {calive : Nat → Bool}
+    (hA : CAInv size alive numClk clk calive) (n : Nat) :
+    CAInv (size + 1) (upd alive size true) (upd numClk size n) (clearFrom clk size 0 none) calive := by
+  intro x hs ha p hp c hc
+  rw [clearFrom_apply] at hc
+  split at hc
+  · cases hc
+  · rename_i hne
+    have hne' : x ≠ size := fun e => hne ⟨e, Nat.zero_le _⟩
+    rw [upd_apply, if_neg hne'] at ha hp
+    exact hA x (by omega) ha p hp c hc
+
+theorem grow_ca {size : Nat} {alive : Nat → Bool} {numClk nk : Nat → Nat} {clk ck : Nat → Nat → Option Nat} {calive : Nat → Bool}
+    (hA : CAInv size alive numClk clk calive) (h : Nat)
+    (hp : ∀ x y v, ck x y = some v → (clk x y = some v ∧ ¬ (x = h ∧ y = numClk h)) ∨ calive v = true)
+    (hn : ∀ x, nk x = numClk x ∨ (x = h ∧ nk x = numClk x + 1)) : CAInv size alive nk ck calive := by
+  intro x hs ha p hpp c hc
+  rcases hp x p c hc with ⟨e, hne⟩ | e
+  · rcases hn x with e1 | ⟨e1, e2⟩
+    · exact hA x hs ha p (by omega) c e
+    · have : p ≠ numClk x := fun e3 => hne ⟨e1, by rw [e3, e1]⟩
+      exact hA x hs ha p (by omega) c e
+  · exact e
+
+theorem newclock_ca {size : Nat} {alive : Nat → Bool} {numClk : Nat → Nat} {clk : Nat → Nat → Option Nat} {calive : Nat → Bool}
+    (hA : CAInv size alive numClk clk calive) (nc : Nat) : CAInv size alive numClk clk (upd calive nc true) := by
+  intro x hs ha p hp c hc
+  rw [upd_apply]; split
+  · rfl
+  · exact hA x hs ha p hp c hc
+
+theorem killclock_ca {size : Nat} {alive : Nat → Bool} {numClk : Nat → Nat} {clk : Nat → Nat → Option Nat} {calive : Nat → Bool}
+    {nc : Nat} {cd : Nat → List NodePort}
+    (hA : CAInv size alive numClk clk calive) (hC : ClockInv size alive numClk clk nc cd) (c : Nat) (he : cd c = []) :
+    CAInv size alive numClk clk (upd calive c false) := by
+  intro x hs ha p hp v hv
+  rw [upd_apply]; split
+  · rename_i e
+    subst e
+    have := (hC.1 x hs ha p hp v hv).2
+    rw [he] at this; simp at this
+  · exact hA x hs ha p hp v hv
+
+theorem drainClock_spec {c : Nat} (fuel : Nat) {s s' : State} (hC : C s) (hr : drainClock fuel s c = .ok s') :
+    ∃ cd ck, s' = { s with clocked := cd, clk := ck } ∧
+      ClockInv s.size s.alive s.numClk ck s.nclocks cd ∧ cd c = [] ∧
+      (∀ x y, ck x y = none ∨ ck x y = s.clk x y) := by
+  induction fuel generalizing s with
+  | zero =>
+    unfold drainClock at hr
+    split at hr
+    · rename_i he
+      have e : s = s' := by injection hr
+      subst e; exact ⟨s.clocked, s.clk, rfl, hC, he, fun _ _ => Or.inr rfl⟩
+    · cases hr
+  | succ f ih =>
+    unfold drainClock at hr
+    split at hr
+    · rename_i he
+      have e : s = s' := by injection hr
+      subst e; exact ⟨s.clocked, s.clk, rfl, hC, he, fun _ _ => Or.inr rfl⟩
+    · obtain ⟨s1, h1, h2⟩ := bind_ok.mp hr
+      obtain ⟨cd1, ck1, rfl, hC1, _, _, _, hmon1⟩ := detachClock_spec hC h1
+      obtain ⟨cd, ck, rfl, hC2, hz, hmon⟩ := ih (s := { s with clocked := cd1, clk := ck1 }) hC1 h2
+      refine ⟨cd, ck, rfl, hC2, hz, ?_⟩
+      intro x y
+      rcases hmon x y with e | e
+      · exact Or.inl e
+      · rcases hmon1 x y with e1 | e1
+        · left; rw [e]; exact e1
+        · right; rw [e]; exact e1
 
 end Gatery.C09
